@@ -75,6 +75,9 @@ pub struct ChainCfg {
     /// subscriber: only the servers, and the nested calls their handlers make, are traced
     #[serde(default)]
     pub head_untraced: bool,
+    /// the head caller's context says Unsampled (default: Sampled)
+    #[serde(default)]
+    pub head_unsampled: bool,
 }
 impl ChainCfg {
     pub fn head_tid(&self) -> u128 {
@@ -445,7 +448,7 @@ impl World {
         ctx.deadline = log.t0 + Duration::from_nanos(cfg.r_ns);
         ctx.trace_context.trace_id = tarpc::trace::TraceId::from(cfg.head_tid());
         ctx.trace_context.span_id = tarpc::trace::SpanId::from(0x1111u64);
-        ctx.trace_context.sampling_decision = tarpc::trace::SamplingDecision::Sampled;
+        ctx.trace_context.sampling_decision = if cfg.head_unsampled { tarpc::trace::SamplingDecision::Unsampled } else { tarpc::trace::SamplingDecision::Sampled };
         let head = clients[0].clone();
         let l2 = log.clone();
         let caller: BoxFut = Box::pin(async move {
